@@ -73,6 +73,9 @@ EventsConform ==
 Generates == C.genErr = "" \/ C.conflict
 NoCrash == C.ran => Len(C.bad) = 0
 VerdictConforms == (InScope(C) /\ ~conf) => Recorded = Expected
+(* C07: with lalr(k) the parser may report an error before the offending token (the lookahead is read ahead),
+   so only the verdict is compared *)
+AcceptConforms == (InScope(C) /\ ~conf) => Recorded[1] = Expected[1]
 (* known finding 9: where Textmapper conflates a final state with an inner state *)
 VerdictConformsConflated == (InScope(C) /\ conf) => Recorded = Expected
 =============================================================================
